@@ -576,6 +576,8 @@ def to_lines(m):
                                              " ".join("%d %d %s" % (a, bb, b(d)) for a, bb, d in u["arcs"])))
         for od in u["orders"]:
             ls.append("uorder %d %d %s" % (min(u["stops"]), len(od), " ".join(map(str, od))))
+    if m.get("triangle"):
+        ls.append("triangle 1")
     if m["features"].get("objx"):
         ls.append("xopt %d %d %d %d" % (o["f_early"], o["f_late"], o["f_min_stops"], o["f_stop_balance"]))
         for i, s in enumerate(m["stops"]):
